@@ -6,20 +6,20 @@ import "fmt"
 // every simulated client, the fault plan and (after execution) the schedule that was
 // taken. A replay file is a Case plus the violation it must reproduce.
 type Case struct {
-	Prop     string       `json:"prop"`
-	World    string       `json:"world"` // which world executes the case
-	Seed     uint64       `json:"seed"`  // VERIF_SEED-derived seed of this run (informational once materialised)
-	Run      int          `json:"run"`
-	Cfg      Config       `json:"cfg"`
-	Schema   []ColSpec    `json:"schema"`
-	Indexes  []IndexSpec  `json:"indexes,omitempty"` // created before the history starts
-	Steps    []Step       `json:"steps,omitempty"`   // single-client history
-	Threads  []ThreadProg `json:"threads,omitempty"` // concurrent clients
-	Faults   []Fault      `json:"faults,omitempty"`
-	Strategy string       `json:"strategy,omitempty"`
-	SchedSeed uint64      `json:"sched_seed,omitempty"`
-	Sched    []int16      `json:"sched,omitempty"` // recorded thread choice per step (replay)
-	Muted    []int        `json:"muted,omitempty"` // hook points that do not yield in this run (buggify)
+	Prop      string       `json:"prop"`
+	World     string       `json:"world"` // which world executes the case
+	Seed      uint64       `json:"seed"`  // VERIF_SEED-derived seed of this run (informational once materialised)
+	Run       int          `json:"run"`
+	Cfg       Config       `json:"cfg"`
+	Schema    []ColSpec    `json:"schema"`
+	Indexes   []IndexSpec  `json:"indexes,omitempty"` // created before the history starts
+	Steps     []Step       `json:"steps,omitempty"`   // single-client history
+	Threads   []ThreadProg `json:"threads,omitempty"` // concurrent clients
+	Faults    []Fault      `json:"faults,omitempty"`
+	Strategy  string       `json:"strategy,omitempty"`
+	SchedSeed uint64       `json:"sched_seed,omitempty"`
+	Sched     []int16      `json:"sched,omitempty"` // recorded thread choice per step (replay)
+	Muted     []int        `json:"muted,omitempty"` // hook points that do not yield in this run (buggify)
 
 	Expect    *Violation `json:"expect,omitempty"`
 	TraceHash uint64     `json:"trace_hash,omitempty"`
@@ -27,13 +27,13 @@ type Case struct {
 
 // Config are the per-run knobs (swarm-randomised).
 type Config struct {
-	Capacity int      `json:"capacity"`
-	Prefill  *Prefill `json:"prefill,omitempty"`
-	KeyAlpha []string `json:"key_alpha,omitempty"` // key alphabet (for absent-key probes)
-	Avoid    []string `json:"avoid,omitempty"`     // known-finding triggers the generator avoided (informational)
-	Replicas bool     `json:"replicas,omitempty"`
-	Snapshots bool    `json:"snapshots,omitempty"`
-	Params   map[string]int `json:"params,omitempty"`
+	Capacity  int            `json:"capacity"`
+	Prefill   *Prefill       `json:"prefill,omitempty"`
+	KeyAlpha  []string       `json:"key_alpha,omitempty"` // key alphabet (for absent-key probes)
+	Avoid     []string       `json:"avoid,omitempty"`     // known-finding triggers the generator avoided (informational)
+	Replicas  bool           `json:"replicas,omitempty"`
+	Snapshots bool           `json:"snapshots,omitempty"`
+	Params    map[string]int `json:"params,omitempty"`
 }
 
 // Prefill describes how the world is populated before the history: whole blocks are
@@ -71,15 +71,15 @@ type TxnProg struct {
 
 // Op is one operation inside a transaction body.
 type Op struct {
-	Kind   string   `json:"kind"` // insert | at | range | delete | deleteall | count | agg | ascend | insertkey | upsertkey | querykey | deletekey
-	Fail   bool     `json:"fail,omitempty"`   // insert/upsert callback returns an error after its writes
-	Target Target   `json:"target,omitempty"` // at | delete
-	Key    string   `json:"key,omitempty"`
-	Writes []Write  `json:"writes,omitempty"` // performed inside the row callback
-	Filter []FStep  `json:"filter,omitempty"` // range | count | agg | deleteall | ascend
-	Col    string   `json:"col,omitempty"`    // agg column / ascend index
-	Limit  int      `json:"limit,omitempty"`  // range: rows that get the writes (0 = all)
-	Yield  bool     `json:"yield,omitempty"`  // harness yield between column reads inside the callback
+	Kind   string  `json:"kind"`             // insert | at | range | delete | deleteall | count | agg | ascend | insertkey | upsertkey | querykey | deletekey
+	Fail   bool    `json:"fail,omitempty"`   // insert/upsert callback returns an error after its writes
+	Target Target  `json:"target,omitempty"` // at | delete
+	Key    string  `json:"key,omitempty"`
+	Writes []Write `json:"writes,omitempty"` // performed inside the row callback
+	Filter []FStep `json:"filter,omitempty"` // range | count | agg | deleteall | ascend
+	Col    string  `json:"col,omitempty"`    // agg column / ascend index
+	Limit  int     `json:"limit,omitempty"`  // range: rows that get the writes (0 = all)
+	Yield  bool    `json:"yield,omitempty"`  // harness yield between column reads inside the callback
 }
 
 // Target names a row symbolically so that cases stay meaningful when steps are removed.
